@@ -88,6 +88,9 @@ func Build(alpha *gen.Alphabet, maxLen, perType int) []Stream {
 			if n >= perType {
 				break
 			}
+			if !orderFree(v, 0) {
+				continue // a map with two or more entries is written in a different order on every run
+			}
 			var x interface{}
 			if v.Kind() != reflect.Interface || !v.IsNil() {
 				x = v.Interface()
@@ -106,6 +109,46 @@ func Build(alpha *gen.Alphabet, maxLen, perType int) []Stream {
 		}
 	}
 	return out
+}
+
+// orderFree reports whether the encoding of v does not depend on map iteration order.
+func orderFree(v reflect.Value, depth int) bool {
+	if !v.IsValid() || depth > 8 {
+		return true
+	}
+	switch v.Kind() {
+	case reflect.Ptr, reflect.Interface:
+		if v.IsNil() {
+			return true
+		}
+		return orderFree(v.Elem(), depth+1)
+	case reflect.Map:
+		if v.Len() > 1 {
+			return false
+		}
+		it := v.MapRange()
+		for it.Next() {
+			if !orderFree(it.Key(), depth+1) || !orderFree(it.Value(), depth+1) {
+				return false
+			}
+		}
+	case reflect.Slice, reflect.Array:
+		for i := 0; i < v.Len(); i++ {
+			if !orderFree(v.Index(i), depth+1) {
+				return false
+			}
+		}
+	case reflect.Struct:
+		if v.Type().PkgPath() != "verif/mc/gen" && v.Type().Name() != "" {
+			return true // time.Time, big.Int, uuid, list.List: no maps inside (lists of the alphabet hold none)
+		}
+		for i := 0; i < v.NumField(); i++ {
+			if !orderFree(v.Field(i), depth+1) {
+				return false
+			}
+		}
+	}
+	return true
 }
 
 // Mutations returns the single-edit neighbourhood of s: every proper truncation, every single-byte
@@ -255,5 +298,41 @@ func SortedKeys(m map[string]bool) []string {
 		out = append(out, k)
 	}
 	sort.Strings(out)
+	return out
+}
+
+// TagSeq is the sequence of tags owning the grammar-relevant numbers of s; TagSet the set of them.
+func TagSeq(s []byte) string {
+	var out []byte
+	for _, r := range NumRuns(s) {
+		out = append(out, r.Tag)
+	}
+	return string(out)
+}
+
+func TagSet(s []byte) string {
+	m := map[string]bool{}
+	for _, r := range NumRuns(s) {
+		m[string(r.Tag)] = true
+	}
+	out := ""
+	for _, k := range SortedKeys(m) {
+		out += k
+	}
+	return out
+}
+
+// FirstPer returns the first stream of every class of key.
+func FirstPer(cs []Stream, key func([]byte) string) []Stream {
+	seen := map[string]bool{}
+	var out []Stream
+	for _, s := range cs {
+		k := key(s.Bytes)
+		if k == "" || seen[k] {
+			continue
+		}
+		seen[k] = true
+		out = append(out, s)
+	}
 	return out
 }
